@@ -2,6 +2,7 @@ package main
 
 import (
 	"fmt"
+	"go/ast"
 	"os"
 	"runtime/debug"
 	"sort"
@@ -17,6 +18,7 @@ type propCheck struct {
 }
 
 var props = map[string]propCheck{}
+var debugCmds = map[string]func(){}
 
 func register(id string, needRef, needSSA bool, run func(w *World, tier string) *Report) {
 	props[id] = propCheck{needRef, needSSA, run}
@@ -40,6 +42,10 @@ func main() {
 		os.Exit(2)
 	}
 	seed, _ := strconv.Atoi(os.Getenv("VERIF_SEED")) // accepted, unused: nothing is random
+	if f, ok := debugCmds[cmd]; ok {
+		f()
+		return
+	}
 	switch cmd {
 	case "classify":
 		w, err := loadWorld(true, true)
@@ -112,4 +118,47 @@ func runOne(id, tier string, seed int, w *World, loadErr error, start time.Time)
 		r.Explanation = "analysis did not complete"
 	}
 	return finish(r, tier, seed, start, known, runErr)
+}
+
+func init() {
+	// developer aid: print the delta of every DELTA function
+	debugCmds["delta"] = func() {
+		w, err := loadWorld(true, true)
+		if err != nil {
+			fmt.Fprintln(os.Stderr, err)
+			os.Exit(2)
+		}
+		fo := w.forkOnly()
+		for i := range pkgPairs {
+			cl := w.classify(i)
+			for _, n := range cl.names(ClsDelta) {
+				d, err := w.embedFunc(i, n, fo)
+				if err != nil {
+					fmt.Println(n, "ERR", err)
+					continue
+				}
+				fp := w.Pkgs[forkPath(i)]
+				rp := w.Pkgs[refPath(i)]
+				fmt.Printf("=== %s %s: matched=%d refonly=%d ins=%d strips=%d alphaErr=%d %s\n", forkPath(i), n, d.Matched, len(d.RefOnly), len(d.Ins), len(d.Strips), len(d.AlphaErr), d.SigDiff)
+				for k, s := range d.RefOnly {
+					fmt.Printf("   - REF  %s [%s]\n", stmtText(w, rp.TypesInfo, s), d.RefOnlyAt[k])
+				}
+				for _, in := range d.Ins {
+					var n ast.Node = in.Stmt
+					if in.Case != nil {
+						n = in.Case
+					}
+					fmt.Printf("   + FORK %s: %s (absorb=%d) [%s]\n", w.pos(n.Pos()), stmtText(w, fp.TypesInfo, n), in.AbsorbRef, in.Ctx)
+				}
+				for _, in := range d.Strips {
+					for _, t := range in.Stripped {
+						fmt.Printf("   ~ STRIP %s: %s\n", w.pos(t.Pos()), stmtText(w, fp.TypesInfo, t))
+					}
+				}
+				for _, a := range d.AlphaErr {
+					fmt.Println("   ! ALPHA", a)
+				}
+			}
+		}
+	}
 }
